@@ -33,6 +33,8 @@ def plan(tier, seed):
 	nsh = 8 if tier == 'quick' else 48
 	for s in range(nsh):
 		tasks.append(('t_consensus', dict(N=N, shard=s, nshards=nsh)))
+	for si in range(len(DEEP_SHAPES)):
+		tasks.append(('t_consensus_deep', dict(si=si, maxm=4 if tier == 'quick' else 5)))
 	if tier == 'quick':
 		cfgs = [(1, 3, 'full'), (2, 3, 'full'), (3, 3, 'full'), (4, 2, 'full'), (4, 3, 'coarse')]
 	else:
@@ -82,6 +84,30 @@ def t_consensus(N, shard, nshards):
 				if consensus_taxon([]) != (None, set()):
 					sh.violation('consensus-empty', dict(parent=[], order=[]))
 	sh.sample(dict(family='consensus_taxon', parent=list(parent), last_order=list(order)))
+	return sh
+
+
+# deeper shapes (7-9 taxa): chains, Y shapes with long arms, a comb, two separate trees
+DEEP_SHAPES = [
+	(None, 0, 1, 2, 3, 4, 5, 6),                 # chain of 8
+	(None, 0, 1, 2, 2, 3, 4, 5, 6),              # Y: stem 3, arms of 3
+	(None, 0, 0, 1, 2, 3, 4, 5, 6),              # Y from the root, arms of 4
+	(None, 0, 1, 1, 2, 2, 3, 3),                 # binary-ish comb
+	(None, 0, 1, 2, None, 4, 5, 6),              # two chains of 4
+	(None, 0, 1, 2, 3, 1, 5, 6, 7),              # long arm off a high node
+]
+
+
+def t_consensus_deep(si, maxm):
+	sh = Shard()
+	parent = DEEP_SHAPES[si]
+	n = len(parent)
+	taxa = taxo.build_taxa(parent)
+	for m in range(1, maxm + 1):
+		for order in itertools.permutations(range(n), m):
+			check_consensus(sh, parent, taxa, order)
+	sh.count('deep_shape_cases', sh.evals)
+	sh.sample(dict(family='consensus_taxon-deep', parent=list(parent), last_order=list(order)))
 	return sh
 
 
@@ -167,7 +193,7 @@ def t_classify(n, gmax, dmode, shard, nshards):
 
 
 def finalize(agg, tier):
-	for c in ('conflict', 'no_common_ancestor', 'consensus_not_a_member', 'classify_conflict', 'classify_no_common_ancestor', 'primary_not_closest'):
+	for c in ('conflict', 'no_common_ancestor', 'consensus_not_a_member', 'classify_conflict', 'classify_no_common_ancestor', 'primary_not_closest', 'deep_shape_cases'):
 		agg.require(c, 50)
 
 
